@@ -94,366 +94,6 @@ pub mod l13 {
    }
 }
 
-#[allow(unused, non_snake_case, clippy::all)]
-pub mod l21 {
-   use ascent::*;
-   use ascent::aggregators::*;
-   use ascent::lattice::{Dual, set::Set};
-   use crate::common::*;
-   ascent! {
-      pub struct Prog;
-      relation r0(i64, i64, i64);
-      relation r1(i64, i64);
-      relation r2(i64, i64, i64);
-      lattice r3(i64, Dual<i64>);
-      lattice r4(i64, i64, Dual<i64>);
-      r3(v1, Dual((*v0))) <-- r2(v0, v0, v1);
-      r3(v2, Dual((*v0))) <-- r3(v0, v1), r2(v0, 2, v2);
-      r4(v0, v0, Dual((*v0))) <-- r0(v0, v0, v0);
-      r4(v2, v3, Dual(0)) <-- r4(1, v0, v1), r1(v2, v3);
-      r3(v0, Dual(((v3.0) + 1))) <-- r0(v0, v1, v1), r4(v2, v2, v3);
-      r3(v1, Dual(4)) <-- r0(v0, v1, v2) if ((*v1) < 4);
-      r4(v0, v0, Dual(((v1.0) + 0))) <-- r3(v0, v1);
-   }
-   pub struct Inst { p: Prog, pool: Option<ascent::rayon::ThreadPool> }
-   pub fn make(pool: Option<usize>) -> Box<dyn Driver> {
-      let pool = pool.map(|n| ascent::rayon::ThreadPoolBuilder::new().num_threads(n).build().unwrap());
-      let p = match &pool { Some(pl) => pl.install(|| Default::default()), None => Default::default() };
-      Box::new(Inst { p, pool })
-   }
-   impl Driver for Inst {
-      fn load(&mut self, rel: usize, rows: &[Sexp], append: bool) -> Option<()> {
-         match rel {
-         0 => { let v: Vec<(i64,i64,i64,)> = parse_rows(rows)?; if append { self.p.r0.extend(v) } else { self.p.r0 = v } },
-         1 => { let v: Vec<(i64,i64,)> = parse_rows(rows)?; if append { self.p.r1.extend(v) } else { self.p.r1 = v } },
-         2 => { let v: Vec<(i64,i64,i64,)> = parse_rows(rows)?; if append { self.p.r2.extend(v) } else { self.p.r2 = v } },
-         3 => { let v: Vec<(i64,Dual<i64>,)> = parse_rows(rows)?; if append { self.p.r3.extend(v) } else { self.p.r3 = v } },
-         4 => { let v: Vec<(i64,i64,Dual<i64>,)> = parse_rows(rows)?; if append { self.p.r4.extend(v) } else { self.p.r4 = v } },
-            _ => return None,
-         }
-         Some(())
-      }
-      fn run(&mut self) { match &self.pool { Some(pl) => { let p = &mut self.p; pl.install(|| p.run()) }, None => self.p.run() } }
-      fn run_here(&mut self) { self.p.run() }
-      fn run_timeout(&mut self, k: usize) -> Option<bool> { let _ = k; None }
-      fn dump(&self) -> String { vec![dump_rel(0, self.p.r0.iter().map(Row::render).collect()), dump_rel(1, self.p.r1.iter().map(Row::render).collect()), dump_rel(2, self.p.r2.iter().map(Row::render).collect()), dump_rel(3, self.p.r3.iter().map(Row::render).collect()), dump_rel(4, self.p.r4.iter().map(Row::render).collect())].join(" | ") }
-      fn iters(&self) -> String { format!("iters {}", self.p.scc_iters.iter().map(|x| x.to_string()).collect::<Vec<_>>().join(" ")) }
-   }
-}
-
-#[allow(unused, non_snake_case, clippy::all)]
-pub mod l29 {
-   use ascent::*;
-   use ascent::aggregators::*;
-   use ascent::lattice::{Dual, set::Set};
-   use crate::common::*;
-   ascent! {
-      pub struct Prog;
-      relation r0(i64, i64);
-      relation r1(i64, i64);
-      relation r2(i64);
-      relation r3(i64, i64, i64);
-      lattice r4(i64, Dual<i64>);
-      lattice r5(Set<i64>);
-      r4(v2, Dual((*v2))) <-- r3(v0, v1, v2);
-      r4(2, Dual(((v1.0) + 1))) <-- r4(v0, v1), r0(v0, v0);
-      r5(Set::singleton((*v1))) <-- r1(v0, v1);
-      r5(Set::singleton(1)) <-- r5(v0), r3(0, v1, v2) if ((*v1) < 4);
-      r5(v0) <-- r5(v0), r5(v1);
-      r5(v0) <-- r5(v0);
-      r5(Set::singleton(0)) <-- r1(v0, v0);
-   }
-   pub struct Inst { p: Prog, pool: Option<ascent::rayon::ThreadPool> }
-   pub fn make(pool: Option<usize>) -> Box<dyn Driver> {
-      let pool = pool.map(|n| ascent::rayon::ThreadPoolBuilder::new().num_threads(n).build().unwrap());
-      let p = match &pool { Some(pl) => pl.install(|| Default::default()), None => Default::default() };
-      Box::new(Inst { p, pool })
-   }
-   impl Driver for Inst {
-      fn load(&mut self, rel: usize, rows: &[Sexp], append: bool) -> Option<()> {
-         match rel {
-         0 => { let v: Vec<(i64,i64,)> = parse_rows(rows)?; if append { self.p.r0.extend(v) } else { self.p.r0 = v } },
-         1 => { let v: Vec<(i64,i64,)> = parse_rows(rows)?; if append { self.p.r1.extend(v) } else { self.p.r1 = v } },
-         2 => { let v: Vec<(i64,)> = parse_rows(rows)?; if append { self.p.r2.extend(v) } else { self.p.r2 = v } },
-         3 => { let v: Vec<(i64,i64,i64,)> = parse_rows(rows)?; if append { self.p.r3.extend(v) } else { self.p.r3 = v } },
-         4 => { let v: Vec<(i64,Dual<i64>,)> = parse_rows(rows)?; if append { self.p.r4.extend(v) } else { self.p.r4 = v } },
-         5 => { let v: Vec<(Set<i64>,)> = parse_rows(rows)?; if append { self.p.r5.extend(v) } else { self.p.r5 = v } },
-            _ => return None,
-         }
-         Some(())
-      }
-      fn run(&mut self) { match &self.pool { Some(pl) => { let p = &mut self.p; pl.install(|| p.run()) }, None => self.p.run() } }
-      fn run_here(&mut self) { self.p.run() }
-      fn run_timeout(&mut self, k: usize) -> Option<bool> { let _ = k; None }
-      fn dump(&self) -> String { vec![dump_rel(0, self.p.r0.iter().map(Row::render).collect()), dump_rel(1, self.p.r1.iter().map(Row::render).collect()), dump_rel(2, self.p.r2.iter().map(Row::render).collect()), dump_rel(3, self.p.r3.iter().map(Row::render).collect()), dump_rel(4, self.p.r4.iter().map(Row::render).collect()), dump_rel(5, self.p.r5.iter().map(Row::render).collect())].join(" | ") }
-      fn iters(&self) -> String { format!("iters {}", self.p.scc_iters.iter().map(|x| x.to_string()).collect::<Vec<_>>().join(" ")) }
-   }
-}
-
-#[allow(unused, non_snake_case, clippy::all)]
-pub mod l37 {
-   use ascent::*;
-   use ascent::aggregators::*;
-   use ascent::lattice::{Dual, set::Set};
-   use crate::common::*;
-   ascent! {
-      pub struct Prog;
-      relation r0(i64, i64, i64);
-      relation r1(i64, i64);
-      relation r2(i64);
-      lattice r3(i64, i64);
-      lattice r4(i64, Dual<i64>);
-      r3(v0, 1) <-- r1(v0, v0) if ((*v0) < 6);
-      r3(v3, v1) <-- r3(v0, v1), r0(v0, v2, v3);
-      r4(v0, Dual(3)) <-- r2(v0);
-      r4(v2, Dual((*v2))) <-- r4(v0, v1), r1(v2, v2);
-      r0(v2, v1, v1) <-- r1(v0, v1), r2(v2) if ((*v1) < 4);
-      r2(v1) <-- r0(v0, v0, 0), r4(v1, v2);
-      r4(v0, Dual((*v0))) <-- r3(v0, v1);
-      r4(0, Dual(1)) <-- r3(v0, v1);
-   }
-   pub struct Inst { p: Prog, pool: Option<ascent::rayon::ThreadPool> }
-   pub fn make(pool: Option<usize>) -> Box<dyn Driver> {
-      let pool = pool.map(|n| ascent::rayon::ThreadPoolBuilder::new().num_threads(n).build().unwrap());
-      let p = match &pool { Some(pl) => pl.install(|| Default::default()), None => Default::default() };
-      Box::new(Inst { p, pool })
-   }
-   impl Driver for Inst {
-      fn load(&mut self, rel: usize, rows: &[Sexp], append: bool) -> Option<()> {
-         match rel {
-         0 => { let v: Vec<(i64,i64,i64,)> = parse_rows(rows)?; if append { self.p.r0.extend(v) } else { self.p.r0 = v } },
-         1 => { let v: Vec<(i64,i64,)> = parse_rows(rows)?; if append { self.p.r1.extend(v) } else { self.p.r1 = v } },
-         2 => { let v: Vec<(i64,)> = parse_rows(rows)?; if append { self.p.r2.extend(v) } else { self.p.r2 = v } },
-         3 => { let v: Vec<(i64,i64,)> = parse_rows(rows)?; if append { self.p.r3.extend(v) } else { self.p.r3 = v } },
-         4 => { let v: Vec<(i64,Dual<i64>,)> = parse_rows(rows)?; if append { self.p.r4.extend(v) } else { self.p.r4 = v } },
-            _ => return None,
-         }
-         Some(())
-      }
-      fn run(&mut self) { match &self.pool { Some(pl) => { let p = &mut self.p; pl.install(|| p.run()) }, None => self.p.run() } }
-      fn run_here(&mut self) { self.p.run() }
-      fn run_timeout(&mut self, k: usize) -> Option<bool> { let _ = k; None }
-      fn dump(&self) -> String { vec![dump_rel(0, self.p.r0.iter().map(Row::render).collect()), dump_rel(1, self.p.r1.iter().map(Row::render).collect()), dump_rel(2, self.p.r2.iter().map(Row::render).collect()), dump_rel(3, self.p.r3.iter().map(Row::render).collect()), dump_rel(4, self.p.r4.iter().map(Row::render).collect())].join(" | ") }
-      fn iters(&self) -> String { format!("iters {}", self.p.scc_iters.iter().map(|x| x.to_string()).collect::<Vec<_>>().join(" ")) }
-   }
-}
-
-#[allow(unused, non_snake_case, clippy::all)]
-pub mod l45 {
-   use ascent::*;
-   use ascent::aggregators::*;
-   use ascent::lattice::{Dual, set::Set};
-   use crate::common::*;
-   ascent! {
-      pub struct Prog;
-      relation r0(i64);
-      relation r1(i64, i64);
-      lattice r2(i64);
-      lattice r3(i64, Dual<i64>);
-      r2(3) <-- r1(v0, v1);
-      r2(4) <-- r2(v0), r1(v1, v1);
-      r3(v0, Dual((*v0))) <-- r1(v0, v0);
-      r3(v2, Dual(1)) <-- r3(v0, v1), r1(v2, v3);
-      r3(v1, v2) <-- r2(v0), r3(v1, v2);
-      r2((*v0)) <-- r3(v0, v1);
-      r0(0) <-- r2(v0);
-      r3(0, Dual(1)) <-- r2(v0);
-   }
-   pub struct Inst { p: Prog, pool: Option<ascent::rayon::ThreadPool> }
-   pub fn make(pool: Option<usize>) -> Box<dyn Driver> {
-      let pool = pool.map(|n| ascent::rayon::ThreadPoolBuilder::new().num_threads(n).build().unwrap());
-      let p = match &pool { Some(pl) => pl.install(|| Default::default()), None => Default::default() };
-      Box::new(Inst { p, pool })
-   }
-   impl Driver for Inst {
-      fn load(&mut self, rel: usize, rows: &[Sexp], append: bool) -> Option<()> {
-         match rel {
-         0 => { let v: Vec<(i64,)> = parse_rows(rows)?; if append { self.p.r0.extend(v) } else { self.p.r0 = v } },
-         1 => { let v: Vec<(i64,i64,)> = parse_rows(rows)?; if append { self.p.r1.extend(v) } else { self.p.r1 = v } },
-         2 => { let v: Vec<(i64,)> = parse_rows(rows)?; if append { self.p.r2.extend(v) } else { self.p.r2 = v } },
-         3 => { let v: Vec<(i64,Dual<i64>,)> = parse_rows(rows)?; if append { self.p.r3.extend(v) } else { self.p.r3 = v } },
-            _ => return None,
-         }
-         Some(())
-      }
-      fn run(&mut self) { match &self.pool { Some(pl) => { let p = &mut self.p; pl.install(|| p.run()) }, None => self.p.run() } }
-      fn run_here(&mut self) { self.p.run() }
-      fn run_timeout(&mut self, k: usize) -> Option<bool> { let _ = k; None }
-      fn dump(&self) -> String { vec![dump_rel(0, self.p.r0.iter().map(Row::render).collect()), dump_rel(1, self.p.r1.iter().map(Row::render).collect()), dump_rel(2, self.p.r2.iter().map(Row::render).collect()), dump_rel(3, self.p.r3.iter().map(Row::render).collect())].join(" | ") }
-      fn iters(&self) -> String { format!("iters {}", self.p.scc_iters.iter().map(|x| x.to_string()).collect::<Vec<_>>().join(" ")) }
-   }
-}
-
-#[allow(unused, non_snake_case, clippy::all)]
-pub mod l53 {
-   use ascent::*;
-   use ascent::aggregators::*;
-   use ascent::lattice::{Dual, set::Set};
-   use crate::common::*;
-   ascent! {
-      pub struct Prog;
-      relation r0(i64, i64, i64);
-      relation r1(i64);
-      lattice r2(Dual<i64>);
-      lattice r3(i64, i64, Option<i64>);
-      r2(Dual((*v0))) <-- r0(v0, v1, v2) if ((*v1) < 2);
-      r3(v1, 3, None) <-- r0(v0, v1, 0);
-      r1(v0) <-- r1(v0), r2(v1) if ((*v0) < 5);
-   }
-   pub struct Inst { p: Prog, pool: Option<ascent::rayon::ThreadPool> }
-   pub fn make(pool: Option<usize>) -> Box<dyn Driver> {
-      let pool = pool.map(|n| ascent::rayon::ThreadPoolBuilder::new().num_threads(n).build().unwrap());
-      let p = match &pool { Some(pl) => pl.install(|| Default::default()), None => Default::default() };
-      Box::new(Inst { p, pool })
-   }
-   impl Driver for Inst {
-      fn load(&mut self, rel: usize, rows: &[Sexp], append: bool) -> Option<()> {
-         match rel {
-         0 => { let v: Vec<(i64,i64,i64,)> = parse_rows(rows)?; if append { self.p.r0.extend(v) } else { self.p.r0 = v } },
-         1 => { let v: Vec<(i64,)> = parse_rows(rows)?; if append { self.p.r1.extend(v) } else { self.p.r1 = v } },
-         2 => { let v: Vec<(Dual<i64>,)> = parse_rows(rows)?; if append { self.p.r2.extend(v) } else { self.p.r2 = v } },
-         3 => { let v: Vec<(i64,i64,Option<i64>,)> = parse_rows(rows)?; if append { self.p.r3.extend(v) } else { self.p.r3 = v } },
-            _ => return None,
-         }
-         Some(())
-      }
-      fn run(&mut self) { match &self.pool { Some(pl) => { let p = &mut self.p; pl.install(|| p.run()) }, None => self.p.run() } }
-      fn run_here(&mut self) { self.p.run() }
-      fn run_timeout(&mut self, k: usize) -> Option<bool> { let _ = k; None }
-      fn dump(&self) -> String { vec![dump_rel(0, self.p.r0.iter().map(Row::render).collect()), dump_rel(1, self.p.r1.iter().map(Row::render).collect()), dump_rel(2, self.p.r2.iter().map(Row::render).collect()), dump_rel(3, self.p.r3.iter().map(Row::render).collect())].join(" | ") }
-      fn iters(&self) -> String { format!("iters {}", self.p.scc_iters.iter().map(|x| x.to_string()).collect::<Vec<_>>().join(" ")) }
-   }
-}
-
-#[allow(unused, non_snake_case, clippy::all)]
-pub mod l61 {
-   use ascent::*;
-   use ascent::aggregators::*;
-   use ascent::lattice::{Dual, set::Set};
-   use crate::common::*;
-   ascent! {
-      pub struct Prog;
-      relation r0(i64, i64);
-      relation r1(i64);
-      relation r2(i64, i64);
-      relation r3(i64, i64, i64);
-      lattice r4(Set<i64>);
-      lattice r5(i64, Dual<i64>);
-      r4(Set::singleton((*v0))) <-- r2(v0, v0) if ((*v0) < 5);
-      r4(v0) <-- r4(v0), r0(v1, v1) if ((*v1) < 6);
-      r5(v0, Dual((*v0))) <-- r1(v0);
-      r5(v2, Dual((*v0))) <-- r5(v0, v1) if ((*v0) < 3), r2(v2, v2);
-      r1(v0) <-- r0(v0, 0);
-   }
-   pub struct Inst { p: Prog, pool: Option<ascent::rayon::ThreadPool> }
-   pub fn make(pool: Option<usize>) -> Box<dyn Driver> {
-      let pool = pool.map(|n| ascent::rayon::ThreadPoolBuilder::new().num_threads(n).build().unwrap());
-      let p = match &pool { Some(pl) => pl.install(|| Default::default()), None => Default::default() };
-      Box::new(Inst { p, pool })
-   }
-   impl Driver for Inst {
-      fn load(&mut self, rel: usize, rows: &[Sexp], append: bool) -> Option<()> {
-         match rel {
-         0 => { let v: Vec<(i64,i64,)> = parse_rows(rows)?; if append { self.p.r0.extend(v) } else { self.p.r0 = v } },
-         1 => { let v: Vec<(i64,)> = parse_rows(rows)?; if append { self.p.r1.extend(v) } else { self.p.r1 = v } },
-         2 => { let v: Vec<(i64,i64,)> = parse_rows(rows)?; if append { self.p.r2.extend(v) } else { self.p.r2 = v } },
-         3 => { let v: Vec<(i64,i64,i64,)> = parse_rows(rows)?; if append { self.p.r3.extend(v) } else { self.p.r3 = v } },
-         4 => { let v: Vec<(Set<i64>,)> = parse_rows(rows)?; if append { self.p.r4.extend(v) } else { self.p.r4 = v } },
-         5 => { let v: Vec<(i64,Dual<i64>,)> = parse_rows(rows)?; if append { self.p.r5.extend(v) } else { self.p.r5 = v } },
-            _ => return None,
-         }
-         Some(())
-      }
-      fn run(&mut self) { match &self.pool { Some(pl) => { let p = &mut self.p; pl.install(|| p.run()) }, None => self.p.run() } }
-      fn run_here(&mut self) { self.p.run() }
-      fn run_timeout(&mut self, k: usize) -> Option<bool> { let _ = k; None }
-      fn dump(&self) -> String { vec![dump_rel(0, self.p.r0.iter().map(Row::render).collect()), dump_rel(1, self.p.r1.iter().map(Row::render).collect()), dump_rel(2, self.p.r2.iter().map(Row::render).collect()), dump_rel(3, self.p.r3.iter().map(Row::render).collect()), dump_rel(4, self.p.r4.iter().map(Row::render).collect()), dump_rel(5, self.p.r5.iter().map(Row::render).collect())].join(" | ") }
-      fn iters(&self) -> String { format!("iters {}", self.p.scc_iters.iter().map(|x| x.to_string()).collect::<Vec<_>>().join(" ")) }
-   }
-}
-
-#[allow(unused, non_snake_case, clippy::all)]
-pub mod l69 {
-   use ascent::*;
-   use ascent::aggregators::*;
-   use ascent::lattice::{Dual, set::Set};
-   use crate::common::*;
-   ascent! {
-      pub struct Prog;
-      relation r0(i64, i64);
-      relation r1(i64);
-      lattice r2(i64, Dual<i64>);
-      r2(3, Dual(0)) <-- r1(1);
-      r2(v0, Dual(((v1.0) + 0))) <-- r2(v0, v1), r1(v0);
-      r0(((*v0) + 1), v0) <-- r1(v0), if ((*v0) < 6);
-   }
-   pub struct Inst { p: Prog, pool: Option<ascent::rayon::ThreadPool> }
-   pub fn make(pool: Option<usize>) -> Box<dyn Driver> {
-      let pool = pool.map(|n| ascent::rayon::ThreadPoolBuilder::new().num_threads(n).build().unwrap());
-      let p = match &pool { Some(pl) => pl.install(|| Default::default()), None => Default::default() };
-      Box::new(Inst { p, pool })
-   }
-   impl Driver for Inst {
-      fn load(&mut self, rel: usize, rows: &[Sexp], append: bool) -> Option<()> {
-         match rel {
-         0 => { let v: Vec<(i64,i64,)> = parse_rows(rows)?; if append { self.p.r0.extend(v) } else { self.p.r0 = v } },
-         1 => { let v: Vec<(i64,)> = parse_rows(rows)?; if append { self.p.r1.extend(v) } else { self.p.r1 = v } },
-         2 => { let v: Vec<(i64,Dual<i64>,)> = parse_rows(rows)?; if append { self.p.r2.extend(v) } else { self.p.r2 = v } },
-            _ => return None,
-         }
-         Some(())
-      }
-      fn run(&mut self) { match &self.pool { Some(pl) => { let p = &mut self.p; pl.install(|| p.run()) }, None => self.p.run() } }
-      fn run_here(&mut self) { self.p.run() }
-      fn run_timeout(&mut self, k: usize) -> Option<bool> { let _ = k; None }
-      fn dump(&self) -> String { vec![dump_rel(0, self.p.r0.iter().map(Row::render).collect()), dump_rel(1, self.p.r1.iter().map(Row::render).collect()), dump_rel(2, self.p.r2.iter().map(Row::render).collect())].join(" | ") }
-      fn iters(&self) -> String { format!("iters {}", self.p.scc_iters.iter().map(|x| x.to_string()).collect::<Vec<_>>().join(" ")) }
-   }
-}
-
-#[allow(unused, non_snake_case, clippy::all)]
-pub mod l77 {
-   use ascent::*;
-   use ascent::aggregators::*;
-   use ascent::lattice::{Dual, set::Set};
-   use crate::common::*;
-   ascent! {
-      pub struct Prog;
-      relation r0(i64);
-      relation r1(i64, i64);
-      relation r2(i64, i64, i64);
-      lattice r3(i64, i64, Option<i64>);
-      r3(v0, v0, Some((*v0))) <-- r2(v0, 2, v0);
-      r3(0, v1, None) <-- r3(v0, v1, v2), r2(v3, v4, v4);
-      r3(((*v0) + 1), v0, v2) <-- r3(v0, v1, v2), r3(v3, v1, v4), if ((*v0) < 6);
-      r2(v0, v1, v1) <-- r2(v0, v0, v1);
-      r3(v0, v0, Some((*v0))) <-- r3(v0, v0, v1);
-   }
-   pub struct Inst { p: Prog, pool: Option<ascent::rayon::ThreadPool> }
-   pub fn make(pool: Option<usize>) -> Box<dyn Driver> {
-      let pool = pool.map(|n| ascent::rayon::ThreadPoolBuilder::new().num_threads(n).build().unwrap());
-      let p = match &pool { Some(pl) => pl.install(|| Default::default()), None => Default::default() };
-      Box::new(Inst { p, pool })
-   }
-   impl Driver for Inst {
-      fn load(&mut self, rel: usize, rows: &[Sexp], append: bool) -> Option<()> {
-         match rel {
-         0 => { let v: Vec<(i64,)> = parse_rows(rows)?; if append { self.p.r0.extend(v) } else { self.p.r0 = v } },
-         1 => { let v: Vec<(i64,i64,)> = parse_rows(rows)?; if append { self.p.r1.extend(v) } else { self.p.r1 = v } },
-         2 => { let v: Vec<(i64,i64,i64,)> = parse_rows(rows)?; if append { self.p.r2.extend(v) } else { self.p.r2 = v } },
-         3 => { let v: Vec<(i64,i64,Option<i64>,)> = parse_rows(rows)?; if append { self.p.r3.extend(v) } else { self.p.r3 = v } },
-            _ => return None,
-         }
-         Some(())
-      }
-      fn run(&mut self) { match &self.pool { Some(pl) => { let p = &mut self.p; pl.install(|| p.run()) }, None => self.p.run() } }
-      fn run_here(&mut self) { self.p.run() }
-      fn run_timeout(&mut self, k: usize) -> Option<bool> { let _ = k; None }
-      fn dump(&self) -> String { vec![dump_rel(0, self.p.r0.iter().map(Row::render).collect()), dump_rel(1, self.p.r1.iter().map(Row::render).collect()), dump_rel(2, self.p.r2.iter().map(Row::render).collect()), dump_rel(3, self.p.r3.iter().map(Row::render).collect())].join(" | ") }
-      fn iters(&self) -> String { format!("iters {}", self.p.scc_iters.iter().map(|x| x.to_string()).collect::<Vec<_>>().join(" ")) }
-   }
-}
-
 fn main() {
-   common::main_loop(&[("l5", l5::make as common::Factory), ("l13", l13::make as common::Factory), ("l21", l21::make as common::Factory), ("l29", l29::make as common::Factory), ("l37", l37::make as common::Factory), ("l45", l45::make as common::Factory), ("l53", l53::make as common::Factory), ("l61", l61::make as common::Factory), ("l69", l69::make as common::Factory), ("l77", l77::make as common::Factory)]);
+   common::main_loop(&[("l5", l5::make as common::Factory), ("l13", l13::make as common::Factory)]);
 }
